@@ -186,7 +186,8 @@ ALL_PRODS = ["namespace", "childTable", "baseTable", "baseName", "classSignature
              "overriddenIn", "headerLink", "inhierarchy", "docstring", "memberDoc", "summaryDoc", "annotation",
              "sidebarTitle", "sidebarItem", "nav", "moduleIndex", "classIndex", "nameIndex", "letterlinks",
              "undocced", "indexRoots", "indexStatic"]
-ENTRY_KINDS = ["table", "detail", "sidebar", "moduleIndex", "classIndex", "nameIndex", "undocced", "indexRoots", "overridesNote", "sidebarTitle"]
+ENTRY_KINDS = ["table", "detail", "sidebar", "moduleIndex", "classIndex", "nameIndex", "undocced", "indexRoots", "overridesNote", "sidebarTitle",
+               "overriddenInNote", "subclassesNote"]
 # real packages: targets of docstring / annotation references are not part of the projected object model
 STRUCTURAL_PRODS = [p for p in ALL_PRODS if p not in ("classSignature", "docstring", "memberDoc", "summaryDoc", "annotation")]
 THEMES = ["base", "classic", "readthedocs"]
@@ -339,7 +340,8 @@ def to_case(res: Dict[str, Any]) -> Dict[str, Any]:
 MARKED_KINDS = ("table", "detail", "sidebar", "moduleIndex", "nameIndex")
 CORE_KINDS = ("table", "detail", "sidebar", "moduleIndex")
 ALLOBJECTS_PRODS = ("nameIndex", "undocced", "classIndex", "searchDoc")
-HIERARCHY_PRODS = ("classSignature", "baseName", "baseTable", "sidebarItem", "subclasses", "overrides", "overridesNote", "overriddenIn")
+HIERARCHY_PRODS = ("classSignature", "baseName", "baseTable", "sidebarItem", "subclasses", "overrides", "overridesNote", "overriddenIn",
+                   "overriddenInNote", "subclassesNote")
 TAGLINK_PRODS = ("classSignature", "annotation", "docstring", "memberDoc", "summaryDoc", "overrides", "baseName", "extras")
 
 
